@@ -261,6 +261,7 @@ Theorem find_parent_without_groups_keeps_tree dms ggp root o :
   fst (find_insert_memory_parent false dms ggp root o) = root.
 Proof.
   unfold find_insert_memory_parent.
+  match goal with |- context [match ?r with Some _ => _ | None => _ end] => destruct r end; [reflexivity|].
   destruct (bs_is_empty _); [reflexivity|].
   destruct (covering root None _) as [p up]. cbn zeta.
   match goal with |- context [if ?b then _ else _] => destruct b end; reflexivity.
